@@ -81,7 +81,11 @@ CHECKS = {
          'exhaustive small-scope input enumeration of the real query path against a reference filter',
          'Every query of a stated finite space (all single fields, all pairs, full flag product, sort x order x limit x every single filter; thorough: all triples and pairs x sort/limit) is executed through owner::retrieve_txs on a real LMDB wallet holding two discriminating 11-entry, 3-account logs and compared with a reference filter written from the field documentation (MUST <= result <= MAY, order, limit-as-prefix). Exhaustive within that scope; nothing sampled.',
          'Small-scope hypothesis: values outside the alphabets behave like their neighbours. Documentation ambiguities resolved by MUST/MAY margins (DESIGN.md C19).',
-         'DESIGN.md §3 C19'),
+         'DESIGN.md §3 C19'), 'C20': ('model_checking',
+         'stateless enumeration of thread schedules of the real code under a cooperative scheduler (wallet-lock and node-call granularity) with a serializability oracle',
+         'Real OS threads, exactly one runnable at a time: one thread runs owner::update_wallet_state or owner::scan, one to three threads run owner/foreign operations (init, lock, receive, finalize, cancel, post), an environment thread fires node events (block mined, next node call fails). Scheduling points are every wallet-mutex acquisition (hook in wallet_lock!) and every NodeClient call; a thread waiting for the mutex is enabled iff it is free. Every schedule is enumerated depth-first by re-execution from a snapshot (quick: at most 2 preemptions and a per-scenario cap; thorough: unbounded preemptions, cap reported). Oracle: the final projection of the wallet (outputs, reservations, entry types, confirmation flags, excess, proofs, key indices, contexts) must equal the final projection of some serial order of the same units (all permutations are executed); no deadlock; no panic; a prefix that cannot be replayed is a machinery error.',
+         'Granularity is the wallet mutex and node calls: all shared wallet state is behind that mutex. Heights and timestamps are not compared.',
+         'DESIGN.md §3 C20'),
 }
 NA = {}
 
